@@ -22,9 +22,11 @@ SPECS["GenC01ChainR"] = {
     "file": "rpylib/distribution/samplingfactory.py", "dom": "R", "ext": "py2coq_loops", "header": _HDR_R,
     "funcs": [
         {"file": "rpylib/grid/spatial.py", "py": "CTMCGrid.left_point", "coq": "left_point", "pyargs": ["coordinate"],
+         "dispatch": {"variant": "base", "registered": ["Coordinate1D", "CoordinateND"]},   # wave 8 core guard (c)
          "args": [("axes0", "list R"), ("coordinate", "Z")], "ret": "R",
          "lists": {"self.axes[0]": ("axes0", "R")}, "int_names": ["coordinate"]},
         {"file": "rpylib/grid/spatial.py", "py": "CTMCGrid.right_point", "coq": "right_point", "pyargs": ["coordinate"],
+         "dispatch": {"variant": "base", "registered": ["Coordinate1D", "CoordinateND"]},
          "args": [("axes0", "list R"), ("coordinate", "Z")], "ret": "R",
          "lists": {"self.axes[0]": ("axes0", "R")}, "int_names": ["coordinate"]},
         {"file": "rpylib/grid/spatial.py", "py": "CTMCGrid.middle", "coq": "middle", "emitter": "py2coq_loops:registered",
